@@ -1,0 +1,11 @@
+//go:build verif
+
+// Contracts for the slipvc verifier (see /verif/DESIGN.md). Comment-only file.
+
+package pp
+
+// C19: quoted data is laid out as data at every nesting level (a sub-list whose
+// head happens to be the name of a special form is not re-interpreted as code).
+//@ func pp.buildQNode
+//@   property C19
+//@   on-call newList quoted-stays-data: $arg2
